@@ -45,6 +45,10 @@ CLAIMED = {
   text="Deductive proof over the ghost header table HS, for every structurally valid store: LatestHeaderLocator (loop invariant, interior pointers &tip.Hash modelled as field references) returns only stored longest-chain hashes, entry 0 is the tip, heights strictly descend, entry i+1 lies lstep(i) below entry i (1 for the first 11 entries, then doubling, as a bit-vector spec function) clamped at 0, and with successful reads the last entry has height 0; locateHeadersGetHeaders / LocateHeaders return exactly the run of longest-chain headers at heights s+1.. (s = greatest height of a locator entry on the longest chain, 0 if none; ghost out-parameter LOC.start), field by field, ending at the stop hash's height when the stop is a longest-chain header ahead, capped at s+2000 and at the tip, and nothing when the stop lies at or below s (genesis stop: defect found and fixed); the L1 repository methods GetHeadersStartHeight / GetHeadersStopHeight / GetHeadersByHeightRange are proved against the port contracts.",
   note="Assumed: the three SQL queries (trusted L0 contracts; bounded conformance by storelab on real SQLite incl. the un-ORDERed range query on tables inserted parent-first), reads succeed (rok) for the completeness clauses; an unknown or stale stop hash counts as no stop (as the storage reports height 0 for it). Not covered: OnGetHeaders/handleGetHeadersMsg wrappers in transports/p2p (IsCurrent gate, queueing), the wire encoding (C14).",
   design="4 C13"),
+ "C08": dict(
+  text="Deductive proof, per page and for every structurally valid store with pairwise distinct merkle roots and every batch size >= 0: HeaderRepository.GetMerkleRoots and MerklerootsService.GetMerkleRoots return exactly the longest-chain rows at heights h0+1 .. min(h0+batch, tip) in ascending order (h0 = -1 for the empty key, else the height of the longest-chain header carrying the key), never more than batch, only longest-chain merkle roots, Size/TotalElements as stated; an unknown key is a 404, a key of a header off the longest chain a 409; LastEvaluatedKey is empty exactly when the page ends at the tip, and otherwise designates the longest-chain header of the last row, so the next page starts right above it with strict progress (continuation clause mrNext). The walk claim (every longest-chain block exactly once, ascending) is the induction over pages of these clauses (DESIGN 4 C08). The page query and the key lookup (SQL + Go glue in database/sql) are a trusted L0 contract with bounded conformance on real SQLite (storelab).",
+  note="Assumed: L0 contract of HeadersDb.GetMerkleRoots (bounded: all trees of <= 4 (quick) / 5 (thorough) headers x every key x batch 0..n+1), GetTip, reads succeed (rok); no ingestion between the page query and the tip query inside one call (sequential semantics; an interleaved new tip only makes the key non-empty, DESIGN 4 C08); batch-size parsing in the HTTP handler is C16's.",
+  design="4 C08"),
  "C09": dict(
   text="Deductive proof of the authentication middleware (parseAuthHeader: only 'Bearer <t>' without spaces passes; getToken: every token-service error becomes 401; ApplyToAPI: with auth enabled either one structured 401 + abort + nothing set, or the token is set and nothing is written; with auth disabled no effect) and of the admin wrapper (validateToken, RequireAdmin and its closure: the wrapped handler is invoked iff the context holds an admin *domains.Token, otherwise one structured error, aborted, stores untouched), plus structural SSA-provenance obligations (no solver): every RegisterAPIEndpoints implementation registers routes only on the group it is given, SetupRoutes passes engine.Group(\"/api/v1\", authentication middlewares...) to each of them, the mutating /access routes are wrapped by RequireAdmin(handler, cfg.UseAuth), and the unauthenticated registrations are exactly status, swagger, pprof, metrics and the websocket upgrade.",
   note="Assumed: gin runs group middleware before handlers and AbortWithStatusJSON stops the chain; strings.Split contract; the route table as gin materialises it at run time is not observed. The structural obligations are syntactic facts about the SSA, enumerated from the code on every run.",
